@@ -257,7 +257,13 @@ func c15Build(placement, stmt, pu string, ex c15Expr, custom string) *c15Case {
 	case "when":
 		leaf.Add(yang.S("type", "string"), yang.S("when", c.exprText))
 	case "path":
-		leaf.Add(yang.S("type", "leafref", yang.S("path", c.exprText)))
+		if len(c.exprText)%3 == 1 {
+			// the leafref is a member of a union, behind a member that takes every value: its path is an expression
+			// of the module all the same
+			leaf.Add(yang.S("type", "union", yang.S("type", "string"), yang.S("type", "leafref", yang.S("path", c.exprText))))
+		} else {
+			leaf.Add(yang.S("type", "leafref", yang.S("path", c.exprText)))
+		}
 	}
 	useTop := yang.S("container", "top-use", yang.S("leaf", "name", yang.S("type", "string")))
 	use.Add(useTop)
@@ -501,6 +507,21 @@ func c15Elsewhere(res *core.CaseResult) {
 	}
 }
 
+// c15Leafref: the leafref type of a node, also where it is a member of a union.
+func c15Leafref(t schema.Type) schema.Leafref {
+	if lr, ok := t.(schema.Leafref); ok {
+		return lr
+	}
+	if u, ok := t.(schema.Union); ok {
+		for _, m := range u.Typs() {
+			if lr := c15Leafref(m); lr != nil {
+				return lr
+			}
+		}
+	}
+	return nil
+}
+
 func (p *c15) Run(tier string, seed int64, idx int) core.CaseResult {
 	var res core.CaseResult
 	c := p.gen(tier, seed, idx)
@@ -627,7 +648,7 @@ func (p *c15) checkMachineAt(c *c15Case, cr compileResult, leafPath []string, ex
 			w := node.Whens()[which]
 			listing, gotExpr = w.Mach.PrintMachine(), w.Mach.GetExpr()
 		case "path":
-			lr := node.Type().(schema.Leafref)
+			lr := c15Leafref(node.Type())
 			listing, gotExpr = lr.Mach().PrintMachine(), lr.Mach().GetExpr()
 		}
 	})
